@@ -40,7 +40,7 @@ def opAtmoAt : P String := do
 
 def opAtmoStd : P String := do
   let alt ← pF
-  pure (outFs [standardTemperatureF alt, standardPressureHPa alt])
+  pure (outFs [standardTemperatureF alt, mkRaw .Pressure (standardPressureHPa alt) .hPa])
 
 def opAirDensity : P String := do
   let t ← pF; let p ← pF; let h ← pF
